@@ -179,3 +179,15 @@ Proof. exact x_workers_at_least_one. Qed.
 Print Assumptions C07_src_workers_at_least_one.
 Print Assumptions C07_src_pin_parfile_copy_worker.
 Print Assumptions C07_src_pin_parblock_dispatch_worker.
+
+(* ---- Driver::copy, translated (the joins): the call returns Ok exactly when the walker and EVERY worker (parfile) /
+   the walker and the dispatcher (parblock) returned Ok: no thread's error is dropped, whichever thread it is ---- *)
+From XcpProofs Require Import XDrivers.
+Theorem C07_src_parfile_copy_reports_every_thread : forall walk workers,
+  x_parfile_copy_result walk workers = None <-> walk = None /\ List.Forall (fun r => r = None) workers.
+Proof. exact x_parfile_copy_ok_iff. Qed.
+Theorem C07_src_parblock_copy_reports_every_thread : forall walk disp,
+  x_parblock_copy_result walk disp = None <-> walk = None /\ disp = None.
+Proof. exact x_parblock_copy_ok_iff. Qed.
+Print Assumptions C07_src_parfile_copy_reports_every_thread.
+Print Assumptions C07_src_parblock_copy_reports_every_thread.
